@@ -51,4 +51,47 @@ def runAllE (I : Inner) (given : Option Name) (force : Bool) (cs : List (List Na
 def oneShotE (I : Inner) (given : Option Name) (force : Bool) (d : List Nat) : Option (List Nat) :=
   if errAt (finalEnc given force d) d true then none else some (oneShot I given force d)
 
+/-! ## the encoder side: `UnicodeEncodeError` of the inner encoder (`codec.py:423`, `:262`) -/
+
+/-- the inner encoder of encoding `E` refuses the text `t` (a surrogate; a character outside latin-1 / ASCII) -/
+def encErrAt (E : Name) (t : List Nat) : Bool :=
+  match lookupName E with
+  | some c => !(encScan c.kind t).2
+  | none => false
+
+def ESt.raised : ESt → Bool
+  | .waiting _ _ => false
+  | .encoding E c => encErrAt E c
+
+def estepE (I : InnerEnc) (s : ESt) (x : List Nat) (f : Bool) : Option (ESt × List Nat) :=
+  let r := estep I s x f
+  if r.1.raised then none else some r
+
+def erunChunksE (I : InnerEnc) : ESt → List (List Nat) → Option (ESt × List Nat)
+  | s, [] => some (s, [])
+  | s, c :: cs =>
+    match estepE I s c false with
+    | none => none
+    | some r =>
+      match erunChunksE I r.1 cs with
+      | none => none
+      | some r' => some (r'.1, r.2 ++ r'.2)
+
+def erunAllE (I : InnerEnc) (given : Option Name) (cs : List (List Nat)) : Option (List Nat) :=
+  match erunChunksE I (.waiting given []) cs with
+  | none => none
+  | some r =>
+    match estepE I r.1 [] true with
+    | none => none
+    | some r' => some (r.2 ++ r'.2)
+
+/-- one-shot `encode(input, encoding=given)`; `none` = raises -/
+def encodeOneShotE (I : InnerEnc) (given : Option Name) (input : List Nat) : Option (List Nat) :=
+  match given with
+  | some g => if encErrAt g (fixFinal input g) then none else some (encodeOneShot I given input)
+  | none =>
+    let E := detUFinal input
+    if encErrAt E (if isSig E then fixFinal input utf8Name else input) then none
+    else some (encodeOneShot I given input)
+
 end CssVerif.Codec
